@@ -7,8 +7,10 @@ pub mod sym;
 pub mod util;
 pub mod big;
 pub mod uf;
+pub mod ops;
 
 pub mod c02;
+pub mod c03;
 pub mod c06;
 pub mod c07;
 pub mod c08;
